@@ -6,9 +6,6 @@ pub trait ExWrite {
 }
 #[verifier::external_type_specification]
 #[verifier::external_body]
-pub struct ExFile(std::fs::File);
-#[verifier::external_type_specification]
-#[verifier::external_body]
 #[verifier::reject_recursive_types(W)]
 pub struct ExBufWriter<W: ?Sized + std::io::Write>(std::io::BufWriter<W>);
 
